@@ -639,7 +639,7 @@ def _solo_history(ns, seed, addr, fam, length):
     return cfg, hist
 
 
-def _run_timed(ns, cfg, hist, props=None):
+def _run_timed(ns, cfg, hist, props=None, on_step=None):
     """Execute [(t, step)] on one world/factory.  time.fire1 fires the earliest
     timer owned by a connection of step['addr']."""
     w = World(ns, cfg)
@@ -647,7 +647,9 @@ def _run_timed(ns, cfg, hist, props=None):
     if props:
         L = Ledger(w, runner.all_rules(), props)
         w.observer = L.observe
-    for (t, st) in hist:
+    for i_step, (t, st) in enumerate(hist):
+        if on_step is not None and i_step:
+            on_step(i_step - 1, w)
         if t > w.reactor.rightNow:
             w.reactor.rightNow = t
         op = st["op"]
@@ -696,7 +698,44 @@ def _run_timed(ns, cfg, hist, props=None):
             w.dispatch("timer", w.conns[ci], {"tid": dc.sim_tid, "label": label}, lambda dc=dc: dc.func(*dc.args, **dc.kw))
             continue
         w.run_step(st)
+    if on_step is not None and hist:
+        on_step(len(hist) - 1, w)
     return w, L
+
+
+def _c19_cross(ns, cfg, cfgB, HA3, HB, merged3, cross):
+    """V3: a callback of address A acts on address B (fail-over).  B must behave as if the
+    application had made that call itself, at top level, at the same moment.
+    Returns (diff or None, info)."""
+    hit = {"i": None, "n": 0}
+
+    def on_step(i, w):
+        n = hit["n"]
+        evs = w.events
+        for e in evs[n:]:
+            if e[0] == "A" and hit["i"] is None and w.conns[e[3]].addr == "B" and isinstance(e[4], dict) \
+                    and e[4].get("m") == cross["m"] and e[4].get("k", {}) == cross.get("k", {}) and e[4].get("a", []) == cross.get("a", []):
+                hit["i"] = i
+        hit["n"] = len(evs)
+    wj, _ = _run_timed(ns, cfg, merged3, None, on_step)
+    if hit["i"] is None:
+        return None, "not-fired"
+    k = hit["i"]
+    top = dict((kk, vv) for kk, vv in cross.items() if kk != "when")
+    HB3 = []
+    for idx, (t, st) in enumerate(merged3):
+        if st.get("addr") == "B" and st is not merged3[k][1]:
+            if idx < k:
+                HB3.append((t, st))
+    HB3.append((merged3[k][0], top))
+    for idx, (t, st) in enumerate(merged3):
+        if idx > k and st.get("addr") == "B":
+            HB3.append((t, st))
+    wb3, _ = _run_timed(ns, cfgB, HB3)
+    jb = obs_log(wj, "B", rename_ids=True, with_dispatch=False)
+    sb = obs_log(wb3, "B", rename_ids=True, with_dispatch=False)
+    d = first_diff(sb, jb)
+    return (("B", d) if d is not None else None), "fired"
 
 
 def c19_chunk(args):
@@ -795,6 +834,51 @@ def c19_chunk(args):
                                     "replay": {"kind": "c19", "property": "C19", "signature": "C19.V1", "config": cfg,
                                                "cfgB": cfgB2, "HA": HA, "HB": HB, "merged": merged, "seed": seed}})
                 break
+        # V3: a callback of A acts on B
+        if not any(v["seed"] == seed for v in out["viol"]) and rng.random() < 0.6:
+            cand = [ix for ix, (t_, st_) in enumerate(HA) if st_["op"] == "app.call" and not st_.get("then")
+                    and st_.get("m") in ("publish", "subscribe", "unsubscribe", "connect")
+                    and (st_["m"] != "publish" or st_.get("k", {}).get("qos"))]
+            if cand:
+                kx = rng.choice(cand)
+                if cfg["profile"] & 2:
+                    cross = {"op": "app.call", "addr": "B", "m": "publish",
+                             "k": {"topic": "fo/x", "message": "fo", "qos": rng.randint(0, 2)}, "when": "any"}
+                else:
+                    cross = {"op": "app.call", "addr": "B", "m": "subscribe", "a": ["fo/#", rng.randint(0, 2)], "when": "any"}
+                HA3 = list(HA)
+                HA3[kx] = (HA[kx][0], dict(HA[kx][1], then=[cross]))
+                ia = ib = 0
+                merged3 = []
+                while ia < len(HA3) or ib < len(HB):
+                    if ib >= len(HB):
+                        pick = "A"
+                    elif ia >= len(HA3):
+                        pick = "B"
+                    elif HA3[ia][0] < HB[ib][0] - 1e-9:
+                        pick = "A"
+                    elif HB[ib][0] < HA3[ia][0] - 1e-9:
+                        pick = "B"
+                    else:
+                        pick = "A" if rng.random() < 0.5 else "B"
+                    if pick == "A":
+                        merged3.append(HA3[ia])
+                        ia += 1
+                    else:
+                        merged3.append(HB[ib])
+                        ib += 1
+                bad3, info3 = _c19_cross(ns, cfg, cfgB2, HA3, HB, merged3, cross)
+                out["probes"]["cross_callback_" + info3] = out["probes"].get("cross_callback_" + info3, 0) + 1
+                if info3 == "fired":
+                    out["interleavings"] += 1
+                if bad3 is not None:
+                    nm, d = bad3
+                    out["viol"].append({"sig": "C19.V3:%s" % _dkind(d), "seed": seed, "kind": "c19",
+                                        "msg": "address B behaves differently when the call is made from a callback of address A instead of at top level: entry %d top-level=%r from-callback=%r"
+                                               % (d[0], d[1], d[2]),
+                                        "nsteps": len(merged3),
+                                        "replay": {"kind": "c19", "mode": "cross", "property": "C19", "signature": "C19.V3", "config": cfg,
+                                                   "cfgB": cfgB2, "HA": HA3, "HB": HB, "merged": merged3, "cross": cross, "seed": seed}})
         for w_ in (wa, wb):
             if any(c.lost for c in w_.conns):
                 out["probes"]["solo_with_loss"] = out["probes"].get("solo_with_loss", 0) + 1
@@ -856,6 +940,11 @@ def c19_replay(ns, rp):
     HB = [(t, s) for t, s in rp["HB"]]
     merged = [(t, s) for t, s in rp["merged"]]
     cfg = rp["config"]
+    if rp.get("mode") == "cross":
+        bad3, info3 = _c19_cross(ns, cfg, rp.get("cfgB", cfg), HA, HB, merged, rp["cross"])
+        if bad3 is not None:
+            return False, "address B differs at entry %d: top-level=%r from-callback=%r" % bad3[1]
+        return True, ""
     wa, _ = _run_timed(ns, cfg, HA)
     wb, _ = _run_timed(ns, rp.get("cfgB", cfg), HB)
     wj, Lj = _run_timed(ns, cfg, merged, ["C17"])
@@ -1031,6 +1120,8 @@ def main(ns, prop, tier, seed, write_evidence, known):
                     tot[k] += part.get(k, 0)
                 for k, v in part.get("kinds", {}).items():
                     tot["kinds"][k] = tot["kinds"].get(k, 0) + v
+                for k, v in part.get("probes", {}).items():
+                    tot.setdefault("probes", {})[k] = tot.setdefault("probes", {}).get(k, 0) + v
                 tot["viol"].extend(part["viol"])
                 if len(tot["samples"]) < 2:
                     tot["samples"].extend(part["samples"][:1])
@@ -1091,13 +1182,14 @@ def main(ns, prop, tier, seed, write_evidence, known):
                  "that stream compared with the one-packet-per-chunk run; distinct = distinct (case, composition) pairs; all compositions "
                  "enumerated for streams <= 12 bytes" if prop == "C03" else
                  "C19: case = two seeded single-address histories; evaluation = one seeded time-ordered interleaving on one factory whose "
-                 "per-address observation logs are compared with the solo runs; distinct = distinct event-log digests of joint runs"),
+                 "per-address observation logs are compared with the solo runs (V1), with the shared identifier counter moved onto an identifier in use and the identifier rules judging (V2), or with a callback of address A acting on address B, compared with the same call made at top level (V3); distinct = distinct event-log digests of joint runs"),
         "samples": tot["samples"][:2] or [{"note": "no short sample"}],
         "cases": tot["cases"],
         "composition_kinds": tot["kinds"],
         "streams_enumerated_exhaustively": tot["exhaustive_streams"],
         "stream_bytes": tot["bytes"],
         "cases_with_close_call": tot["aborted_cases"],
+        "probes": tot.get("probes", {}),
         "joint_steps": tot["steps"],
         "runs_per_hour": int(evals / max(wall, 1e-9) * 3600),
         "new_violation_signatures": sorted(x["sig"] for x in new),
